@@ -165,6 +165,9 @@ def validate(ctx: Ctx, files: Sequence[Path], enabled: Iterable[str], *, flags: 
             tv.viol.append(v)
         for d in json.loads(tlc.tla_str_to_py(divg[-1])):
             d["file"] = Path(path).name
+            if d["p"] == "Hooks":
+                raise MachineryError(f"hook events are missing from the recorded runs ({d['c']} at {d['file']}:{d['line']}): "
+                                     f"the instrumentation no longer matches the step pipeline")
             tv.divg.append(d)
         if covr:
             for c in json.loads(tlc.tla_str_to_py(covr[-1])):
